@@ -149,6 +149,22 @@ func (matrix *DenseInt64Matrix) SLICE(rfrom, rto, cfrom, cto int) *DenseInt64Mat
   m.cols = cto - cfrom
   return &m
 }
+func (matrix *DenseInt64Matrix) AsDenseInt64Vector() DenseInt64Vector {
+  if matrix.rows < matrix.rowMax || matrix.cols < matrix.colMax {
+    // matrix is a slice of a larger matrix, return the elements
+    // of the slice
+    n, m := matrix.Dims()
+    v := make([]int64, n*m)
+    for i := 0; i < n; i++ {
+      for j := 0; j < m; j++ {
+        v[i*m + j] = matrix.values[matrix.index(i, j)]
+      }
+    }
+    return DenseInt64Vector(v)
+  } else {
+    return DenseInt64Vector(matrix.values)
+  }
+}
 /* matrix interface
  * -------------------------------------------------------------------------- */
 func (matrix *DenseInt64Matrix) CloneMatrix() Matrix {
@@ -250,7 +266,7 @@ func (matrix *DenseInt64Matrix) Tip() {
   matrix.rowMax, matrix.colMax = matrix.colMax, matrix.rowMax
 }
 func (matrix *DenseInt64Matrix) AsVector() Vector {
-  return DenseInt64Vector(matrix.values)
+  return matrix.AsDenseInt64Vector()
 }
 func (matrix *DenseInt64Matrix) storageLocation() uintptr {
   return uintptr(unsafe.Pointer(&matrix.values[0]))
@@ -339,7 +355,7 @@ func (matrix *DenseInt64Matrix) IsSymmetric(epsilon float64) bool {
   return true
 }
 func (matrix *DenseInt64Matrix) AsConstVector() ConstVector {
-  return DenseInt64Vector(matrix.values)
+  return matrix.AsDenseInt64Vector()
 }
 /* implement ScalarContainer
  * -------------------------------------------------------------------------- */
